@@ -114,3 +114,21 @@ Definition Q_of_bits (b : fbits) : option Q :=
             end)
   | _ => None
   end.
+
+(* ---- numpy.linspace(start, stop, num) (endpoint=True) evaluated in binary64, as samplers.pyx calls it (numpy 1.26
+   core/function_base.py): step = (stop - start) / (num - 1); y_i = i * step + start (or (i / (num - 1)) * (stop - start)
+   + start when the step underflows to zero); the last point is then set to stop itself; for num = 1 the single point is
+   0 * (stop - start) + start.  Every operation is one correctly rounded binary64 operation. *)
+Definition F_of_Z (i : Z) : float := of_uint63 (Uint63.of_Z i).
+Definition linspace_F_at (n : Z) (a b : float) (i : Z) : float :=
+  let delta := (b - a)%float in
+  let fi := F_of_Z i in
+  if (0 <? n - 1)%Z then
+    if (i =? n - 1)%Z then b
+    else
+      let div := F_of_Z (n - 1) in
+      let step := (delta / div)%float in
+      if (step =? zero)%float then (fi / div * delta + a)%float else (fi * step + a)%float
+  else (fi * delta + a)%float.
+Definition linspace_F (n : Z) (a b : float) : list float :=
+  map (linspace_F_at n a b) (map Z.of_nat (seq 0 (Z.to_nat n))).
